@@ -290,7 +290,7 @@ def dec_results(res):
 
 def _expr(r, lo=False):
     c = r.random()
-    if c < 0.3:
+    if c < 0.3 and not lo:      # storage keys stay concrete: a symbolic base slot is outside halmos' storage model (C08)
         return ["a", r.randrange(NARGS)]
     return ["c", r.choice([0, 0, 1, 5, 1000, 10 ** 18] if not lo else [0, 1, 2, 3])]
 
@@ -581,6 +581,9 @@ def check_tree(task):
                 d = l2tie.compare_path(scn, p, ev, inp, ref)
             except Exception as e:  # noqa: BLE001
                 d = {"what": f"evaluation error {type(e).__name__}: {e}"[:200]}
+            if d is not None and str(d.get("halmos", "")).startswith("EXC NotConcreteError"):
+                d = None        # read-back of a location halmos cannot decode (never written: the write raised): not an outcome claim
+                out["readback_skipped"] = out.get("readback_skipped", 0) + 1
             if d is not None:
                 out["impl_vs_ref"].append({"input": inp, "path_kind": p.kind, "markers": marks, **{k2: (v if isinstance(v, (int, str)) else str(v)) for k2, v in d.items()}})
             try:
